@@ -29,7 +29,8 @@ CHECKS = {
             "compiler.py:_optimize_struct_fmt",
             "types/structure.py:StructureMetaType._read",
         ],
-        "required_cells": ["compiled:True", "fallback", "align:True", "align:False", "endian:<", "endian:>"],
+        "required_cells": ["compiled:True", "fallback", "align:True", "align:False", "endian:<", "endian:>",
+                           "explicit-offsets"],
         "assumptions": ASSUME_COMMON,
     },
 }
